@@ -1,4 +1,366 @@
 /- Proofs/Marks.lean — helper lemmas for Props/C14.lean -/
 import PM.Marks
 namespace PM
+
+/-- rank order as a `Pairwise` predicate -/
+abbrev RankSorted (l : Marks) : Prop := l.Pairwise (fun a b => a.ty ≤ b.ty)
+
+/-! ### `insertByRank` -/
+
+theorem mem_insertByRank (m x : Mark) (l : Marks) : x ∈ insertByRank m l ↔ x = m ∨ x ∈ l := by
+  induction l with
+  | nil => simp [insertByRank]
+  | cons o rest ih =>
+    simp only [insertByRank]
+    split
+    · simp
+    · simp only [List.mem_cons, ih]
+      constructor
+      · rintro (h | h | h) <;> simp [h]
+      · rintro (h | h | h) <;> simp [h]
+
+theorem insertByRank_perm (m : Mark) (l : Marks) : (insertByRank m l).Perm (m :: l) := by
+  induction l with
+  | nil => simp [insertByRank]
+  | cons o rest ih =>
+    simp only [insertByRank]
+    split
+    · exact List.Perm.refl _
+    · exact (ih.cons o).trans (List.Perm.swap m o rest)
+
+theorem insertByRank_sorted (m : Mark) (l : Marks) (h : RankSorted l) :
+    RankSorted (insertByRank m l) := by
+  induction l with
+  | nil => simp [insertByRank, RankSorted]
+  | cons o rest ih =>
+    have ⟨h1, h2⟩ := List.pairwise_cons.mp h
+    simp only [insertByRank]
+    split
+    · rename_i hgt
+      refine List.pairwise_cons.mpr ⟨?_, h⟩
+      intro x hx
+      rcases List.mem_cons.mp hx with rfl | hx
+      · exact Nat.le_of_lt hgt
+      · exact Nat.le_trans (Nat.le_of_lt hgt) (h1 x hx)
+    · rename_i hle
+      refine List.pairwise_cons.mpr ⟨?_, ih h2⟩
+      intro x hx
+      rcases (mem_insertByRank m x rest).mp hx with rfl | hx
+      · exact Nat.le_of_not_gt hle
+      · exact h1 x hx
+
+theorem insertByRank_append_of_le (m : Mark) (l r : Marks) (h : ∀ o, o ∈ l → o.ty ≤ m.ty) :
+    insertByRank m (l ++ r) = l ++ insertByRank m r := by
+  induction l with
+  | nil => rfl
+  | cons o rest ih =>
+    have ho := h o (by simp)
+    have : ¬ o.ty > m.ty := Nat.not_lt.mpr ho
+    simp only [List.cons_append, insertByRank, this, if_false]
+    rw [ih (fun x hx => h x (by simp [hx]))]
+
+theorem insertByRank_of_le (m : Mark) (l : Marks) (h : ∀ o, o ∈ l → o.ty ≤ m.ty) :
+    insertByRank m l = l ++ [m] := by
+  have := insertByRank_append_of_le m l [] h
+  simpa [insertByRank] using this
+
+theorem insertByRank_append_of_gt (m : Mark) (l r : Marks) (h : ∃ x, x ∈ l ∧ x.ty > m.ty) :
+    insertByRank m (l ++ r) = insertByRank m l ++ r := by
+  induction l with
+  | nil => simp at h
+  | cons o rest ih =>
+    simp only [List.cons_append, insertByRank]
+    split
+    · rfl
+    · rename_i hle
+      obtain ⟨x, hx, hgt⟩ := h
+      rcases List.mem_cons.mp hx with rfl | hx
+      · exact absurd hgt hle
+      · rw [ih ⟨x, hx, hgt⟩]; rfl
+
+/-! ### the loop invariant of `addToSetAux` -/
+
+/-- the marks of `pre` that `m` does not exclude -/
+abbrev keptOf (S : Schema) (m : Mark) (l : Marks) : Marks :=
+  l.filter (fun o => !S.excludes m.ty o.ty)
+
+/-- state of the loop after the prefix `pre` has been consumed -/
+def AddInv (S : Schema) (m : Mark) (pre : Marks) (copy : Option Marks) (placed : Bool) : Prop :=
+  (placed = false ∧ (∀ o, o ∈ keptOf S m pre → o.ty ≤ m.ty) ∧
+      ((copy = none ∧ keptOf S m pre = pre) ∨ copy = some (keptOf S m pre))) ∨
+  (placed = true ∧ copy = some (insertByRank m (keptOf S m pre)) ∧
+      ∃ x, x ∈ keptOf S m pre ∧ x.ty > m.ty)
+
+theorem AddInv_init (S : Schema) (m : Mark) : AddInv S m [] none false := by
+  simp [AddInv]
+
+theorem AddInv_getD_false {S : Schema} {m : Mark} {pre : Marks} {copy : Option Marks}
+    (h : AddInv S m pre copy false) : copy.getD pre = keptOf S m pre := by
+  rcases h with ⟨_, _, (⟨rfl, hk⟩ | rfl)⟩ | ⟨h, _⟩
+  · simp [hk]
+  · simp
+  · simp at h
+
+theorem AddInv_drop {S : Schema} {m other : Mark} {pre : Marks} {copy : Option Marks} {placed : Bool}
+    (h : AddInv S m pre copy placed) (hex : S.excludes m.ty other.ty = true) :
+    AddInv S m (pre ++ [other]) (some (copy.getD pre)) placed := by
+  have hk : keptOf S m (pre ++ [other]) = keptOf S m pre := by
+    simp [keptOf, List.filter_append, hex]
+  unfold AddInv
+  rw [hk]
+  rcases h with ⟨hp, hle, hc⟩ | ⟨hp, hc, hgt⟩
+  · left
+    refine ⟨hp, hle, Or.inr ?_⟩
+    rcases hc with ⟨rfl, hk'⟩ | rfl
+    · simp [hk']
+    · simp
+  · right
+    subst hc
+    exact ⟨hp, by simp, hgt⟩
+
+theorem AddInv_place {S : Schema} {m other : Mark} {pre : Marks} {copy : Option Marks}
+    (h : AddInv S m pre copy false) (hex : S.excludes m.ty other.ty = false)
+    (hgt : other.ty > m.ty) :
+    AddInv S m (pre ++ [other]) (some (copy.getD pre ++ [m] ++ [other])) true := by
+  have hk : keptOf S m (pre ++ [other]) = keptOf S m pre ++ [other] := by
+    simp [keptOf, List.filter_append, hex]
+  have hg := AddInv_getD_false h
+  unfold AddInv
+  rw [hk, hg]
+  right
+  rcases h with ⟨_, hle, _⟩ | ⟨hp, _⟩
+  · refine ⟨rfl, ?_, other, by simp, hgt⟩
+    rw [insertByRank_append_of_le m _ _ hle]
+    simp [insertByRank, hgt]
+  · simp at hp
+
+theorem AddInv_keep {S : Schema} {m other : Mark} {pre : Marks} {copy : Option Marks} {placed : Bool}
+    (h : AddInv S m pre copy placed) (hex : S.excludes m.ty other.ty = false)
+    (hc : placed = true ∨ other.ty ≤ m.ty) :
+    AddInv S m (pre ++ [other]) (copy.map (· ++ [other])) placed := by
+  have hk : keptOf S m (pre ++ [other]) = keptOf S m pre ++ [other] := by
+    simp [keptOf, List.filter_append, hex]
+  unfold AddInv
+  rw [hk]
+  rcases h with ⟨hp, hle, hcopy⟩ | ⟨hp, hcopy, hgt⟩
+  · left
+    subst hp
+    have hle' : other.ty ≤ m.ty := by
+      rcases hc with hc | hc
+      · simp at hc
+      · exact hc
+    refine ⟨rfl, ?_, ?_⟩
+    · intro o ho
+      rcases List.mem_append.mp ho with ho | ho
+      · exact hle o ho
+      · simp at ho; subst ho; exact hle'
+    · rcases hcopy with ⟨rfl, hk'⟩ | rfl
+      · left; simp [hk']
+      · right; simp
+  · right
+    subst hcopy
+    refine ⟨hp, ?_, ?_⟩
+    · rw [insertByRank_append_of_gt m _ _ hgt]; simp
+    · obtain ⟨x, hx, hxgt⟩ := hgt
+      exact ⟨x, List.mem_append_left _ hx, hxgt⟩
+
+theorem AddInv_final {S : Schema} {m : Mark} {pre : Marks} {copy : Option Marks} {placed : Bool}
+    (h : AddInv S m pre copy placed) :
+    (if placed then copy.getD pre else copy.getD pre ++ [m]) = insertByRank m (keptOf S m pre) := by
+  rcases h with ⟨hp, hle, hcopy⟩ | ⟨hp, hcopy, _⟩
+  · subst hp
+    rw [AddInv_getD_false (Or.inl ⟨rfl, hle, hcopy⟩), insertByRank_of_le m _ hle]
+    simp
+  · subst hp; subst hcopy; simp
+
+/-- what the loop computes from any state satisfying the invariant -/
+theorem addToSetAux_eq (S : Schema) (m : Mark) (set : Marks) :
+    ∀ (rest pre : Marks) (copy : Option Marks) (placed : Bool),
+      set = pre ++ rest → AddInv S m pre copy placed →
+      addToSetAux S m set rest pre.length copy placed =
+        if rest.any (fun o => o == m) ||
+            rest.any (fun o => !S.excludes m.ty o.ty && S.excludes o.ty m.ty) then set
+        else insertByRank m (keptOf S m set) := by
+  intro rest
+  induction rest with
+  | nil =>
+    intro pre copy placed hset hinv
+    simp only [List.append_nil] at hset
+    subst hset
+    simp only [addToSetAux, List.any_nil, Bool.or_self, Bool.false_eq_true, if_false]
+    exact AddInv_final hinv
+  | cons other rest ih =>
+    intro pre copy placed hset hinv
+    have hset' : set = (pre ++ [other]) ++ rest := by simp [hset]
+    have hlen : (pre ++ [other]).length = pre.length + 1 := by simp
+    have htake : set.take pre.length = pre := by simp [hset]
+    rw [addToSetAux]
+    by_cases heq : m = other
+    · subst heq; simp
+    · have hne : (other == m) = false := by
+        simp only [beq_eq_false_iff_ne, ne_eq]; exact fun h => heq h.symm
+      simp only [heq, if_false]
+      by_cases hex : S.excludes m.ty other.ty = true
+      · simp only [hex, if_true, htake]
+        rw [← hlen, ih _ _ _ hset' (AddInv_drop hinv hex)]
+        simp [List.any_cons, hne, hex]
+      · have hex' : S.excludes m.ty other.ty = false := by simpa using hex
+        simp only [hex', Bool.false_eq_true, if_false]
+        by_cases hblk : S.excludes other.ty m.ty = true
+        · simp [hblk, hex']
+        · have hblk' : S.excludes other.ty m.ty = false := by simpa using hblk
+          simp only [hblk', Bool.false_eq_true, if_false, htake]
+          have hrhs : ((other :: rest).any (fun o => o == m) ||
+              (other :: rest).any (fun o => !S.excludes m.ty o.ty && S.excludes o.ty m.ty)) =
+              (rest.any (fun o => o == m) ||
+                rest.any (fun o => !S.excludes m.ty o.ty && S.excludes o.ty m.ty)) := by
+            simp [List.any_cons, hne, hblk']
+          rw [hrhs]
+          cases placed with
+          | true =>
+            simp only [Bool.not_true, Bool.false_and, Bool.false_eq_true, if_false]
+            rw [← hlen, ih _ _ _ hset' (AddInv_keep hinv hex' (Or.inl rfl))]
+          | false =>
+            by_cases hgt : other.ty > m.ty
+            · simp only [Bool.not_false, Bool.true_and, decide_eq_true_eq, hgt, if_true]
+              rw [← hlen, ih _ _ _ hset' (AddInv_place hinv hex' hgt)]
+            · simp only [Bool.not_false, Bool.true_and, decide_eq_true_eq, hgt, if_false]
+              rw [← hlen, ih _ _ _ hset' (AddInv_keep hinv hex' (Or.inr (Nat.le_of_not_gt hgt)))]
+
+theorem addToSet_eq (S : Schema) (m : Mark) (set : Marks) :
+    m.addToSet S set =
+      if set.any (fun o => o == m) ||
+          set.any (fun o => !S.excludes m.ty o.ty && S.excludes o.ty m.ty) then set
+      else insertByRank m (set.filter (fun o => !S.excludes m.ty o.ty)) :=
+  addToSetAux_eq S m set set [] none false rfl (AddInv_init S m)
+
+/-! ### `setFrom` -/
+
+theorem setFrom_sorted' (l : Marks) : RankSorted (setFrom l) := by
+  unfold setFrom
+  suffices h : ∀ acc : Marks, RankSorted acc →
+      RankSorted (l.foldl (fun acc m => insertByRank m acc) acc) from h [] List.Pairwise.nil
+  induction l with
+  | nil => intro acc h; exact h
+  | cons m rest ih => intro acc h; exact ih _ (insertByRank_sorted m acc h)
+
+theorem setFrom_perm' (l : Marks) : (setFrom l).Perm l := by
+  unfold setFrom
+  suffices h : ∀ acc : Marks,
+      (l.foldl (fun acc m => insertByRank m acc) acc).Perm (acc ++ l) by simpa using h []
+  induction l with
+  | nil => intro acc; simp
+  | cons m rest ih =>
+    intro acc
+    refine (ih _).trans ?_
+    refine ((insertByRank_perm m acc).append_right rest).trans ?_
+    simpa using (List.perm_middle (a := m) (l₁ := acc) (l₂ := rest)).symm
+
+/-! ### canonical form, `Pairwise` version (bridged to `C14.Canon` in Props/C14.lean) -/
+
+def ExclFree (S : Schema) (l : Marks) : Prop :=
+  ∀ a, a ∈ l → ∀ b, b ∈ l → a ≠ b → S.excludes a.ty b.ty = false
+
+structure CanonP (S : Schema) (l : Marks) : Prop where
+  sorted : RankSorted l
+  nodup : l.Nodup
+  exclFree : ExclFree S l
+
+theorem CanonP.nil (S : Schema) : CanonP S [] :=
+  ⟨List.Pairwise.nil, List.nodup_nil, fun _ h => by simp at h⟩
+
+theorem CanonP.sublist {S : Schema} {l l' : Marks} (h : CanonP S l) (hs : l'.Sublist l) :
+    CanonP S l' :=
+  ⟨h.sorted.sublist hs, h.nodup.sublist hs,
+    fun a ha b hb hab => h.exclFree a (hs.subset ha) b (hs.subset hb) hab⟩
+
+theorem insertByRank_nodup (m : Mark) (l : Marks) (hm : m ∉ l) (h : l.Nodup) :
+    (insertByRank m l).Nodup :=
+  (insertByRank_perm m l).nodup_iff.mpr (List.nodup_cons.mpr ⟨hm, h⟩)
+
+theorem addToSet_canonP (S : Schema) (m : Mark) (set : Marks) (h : CanonP S set) :
+    CanonP S (m.addToSet S set) := by
+  rw [addToSet_eq]
+  split
+  · exact h
+  · rename_i hc
+    simp only [Bool.or_eq_true, List.any_eq_true, beq_iff_eq, Bool.and_eq_true,
+      Bool.not_eq_eq_eq_not, Bool.not_true, not_or, not_exists, not_and] at hc
+    obtain ⟨hne, hblk⟩ := hc
+    have hsub : (keptOf S m set).Sublist set := List.filter_sublist
+    have hk := h.sublist hsub
+    have hm : m ∉ keptOf S m set := fun hm => hne m (hsub.subset hm) rfl
+    refine ⟨insertByRank_sorted m _ hk.sorted, insertByRank_nodup m _ hm hk.nodup, ?_⟩
+    intro a ha b hb hab
+    rcases (mem_insertByRank m a _).mp ha with rfl | ha
+    · rcases (mem_insertByRank a b _).mp hb with rfl | hb
+      · exact absurd rfl hab
+      · simpa using (List.mem_filter.mp hb).2
+    · rcases (mem_insertByRank m b _).mp hb with rfl | hb
+      · have ha' := List.mem_filter.mp ha
+        have h1 : S.excludes b.ty a.ty = false := by simpa using ha'.2
+        cases h2 : S.excludes a.ty b.ty with
+        | false => rfl
+        | true => exact absurd h2 (hblk a ha'.1 h1)
+      · exact hk.exclFree a ha b hb hab
+
+theorem removeFromSet_canonP (S : Schema) (m : Mark) (set : Marks) (h : CanonP S set) :
+    CanonP S (m.removeFromSet set) :=
+  h.sublist List.filter_sublist
+
+theorem addToSet_snoc (S : Schema) (pre : Marks) (x : Mark) (h : CanonP S (pre ++ [x])) :
+    x.addToSet S pre = pre ++ [x] := by
+  have hnd := List.nodup_append.mp h.nodup
+  have hx : ∀ o, o ∈ pre → o ≠ x := fun o ho => hnd.2.2 o ho x (by simp)
+  have hle : ∀ o, o ∈ pre → o.ty ≤ x.ty := fun o ho =>
+    (List.pairwise_append.mp h.sorted).2.2 o ho x (by simp)
+  have hox : ∀ o, o ∈ pre → S.excludes o.ty x.ty = false := fun o ho =>
+    h.exclFree o (by simp [ho]) x (by simp) (hx o ho)
+  have hxo : ∀ o, o ∈ pre → S.excludes x.ty o.ty = false := fun o ho =>
+    h.exclFree x (by simp) o (by simp [ho]) (fun e => hx o ho e.symm)
+  rw [addToSet_eq]
+  have hc : (pre.any (fun o => o == x) ||
+      pre.any (fun o => !S.excludes x.ty o.ty && S.excludes o.ty x.ty)) = false := by
+    simp only [Bool.or_eq_false_iff, List.any_eq_false, beq_iff_eq, Bool.and_eq_true,
+      Bool.not_eq_eq_eq_not, Bool.not_true, not_and, Bool.not_eq_true]
+    exact ⟨hx, fun o ho _ => hox o ho⟩
+  rw [hc]
+  simp only [Bool.false_eq_true, if_false]
+  have hf : pre.filter (fun o => !S.excludes x.ty o.ty) = pre :=
+    List.filter_eq_self.mpr (fun o ho => by simp [hxo o ho])
+  rw [hf, insertByRank_of_le x pre hle]
+
+theorem foldl_add_of_canonP (S : Schema) :
+    ∀ (l pre : Marks), CanonP S (pre ++ l) →
+      l.foldl (fun acc m => m.addToSet S acc) pre = pre ++ l := by
+  intro l
+  induction l with
+  | nil => intro pre _; simp
+  | cons x rest ih =>
+    intro pre h
+    have h1 : CanonP S (pre ++ [x]) :=
+      h.sublist (List.Sublist.append_left (by simp) pre)
+    simp only [List.foldl_cons]
+    rw [addToSet_snoc S pre x h1, ih (pre ++ [x]) (by simpa using h)]
+    simp
+
+theorem foldl_add_canonP (S : Schema) :
+    ∀ (l acc : Marks), CanonP S acc → CanonP S (l.foldl (fun acc m => m.addToSet S acc) acc) := by
+  intro l
+  induction l with
+  | nil => intro acc h; exact h
+  | cons x rest ih => intro acc h; exact ih _ (addToSet_canonP S x acc h)
+
+theorem canonicalMarks_iff_canonP (S : Schema) (set : Marks) :
+    canonicalMarks S set = true ↔ CanonP S set := by
+  unfold canonicalMarks
+  constructor
+  · intro h
+    have he : set.foldl (fun acc m => m.addToSet S acc) [] = set := by simpa using h
+    have := foldl_add_canonP S set [] (CanonP.nil S)
+    rwa [he] at this
+  · intro h
+    have := foldl_add_of_canonP S set [] (by simpa using h)
+    simp [this]
+
 end PM
